@@ -180,7 +180,7 @@ theorem runOp_spec : ∀ (op : RdOp) (b : Buf), b.WInv →
     · simp only [runOp, bind_eq, M.bind, ih.1]
     · rw [scriptConsumed_single_tp]
       simp only [runOp, bind_eq]
-      exact OkThen_bind _ _ b _ _ _ _ ih.2 (fun a b' hr => by simpa [OkThen] using hr) (fun _ hp => hp)
+      exact OkThen_bind _ _ b _ _ _ _ ih.2 (fun a b' hr => by simpa [OkThen] using hr.1) (fun _ hp => hp)
 theorem runOps_spec : ∀ (ops : List RdOp) (b : Buf), b.WInv →
     runOps oc ops b = runOps true ops b ∧
     OkThen (runOps oc ops b) (fun b' => Reads b b' (scriptConsumed (b.wi - b.ri) ops)) (SomeReads b)
@@ -211,7 +211,8 @@ theorem runOps_spec : ∀ (ops : List RdOp) (b : Buf), b.WInv →
       | ok u => exact Reads.trans h hr ih2
 theorem tryParse_spec : ∀ (ops : List RdOp) (sm : Bool) (b : Buf), b.WInv →
     tryParse oc ops sm b = tryParse true ops sm b ∧
-    OkThen (tryParse oc ops sm b) (fun b' => Reads b b' (if sm then scriptConsumed (b.wi - b.ri) ops else 0)) (SomeReads b)
+    OkThen (tryParse oc ops sm b)
+      (fun b' => Reads b b' (if sm then scriptConsumed (b.wi - b.ri) ops else 0) ∧ (sm = false → b' = b)) (SomeReads b)
   | ops, sm, b, h => by
     have ih := runOps_spec ops b h
     refine ⟨?_, ?_⟩
@@ -229,9 +230,11 @@ theorem tryParse_spec : ∀ (ops : List RdOp) (sm : Bool) (b : Buf), b.WInv →
         | false =>
           have hm := Reads.mem h2
           simp only [Bool.false_eq_true, if_false, M_ite_app, setB]
-          left
-          refine ⟨?_, rfl⟩
-          cases b; cases b1; simp_all
+          have e : ({ mem := b1.mem, ri := b.ri, wi := b.wi } : Buf) = b := by
+            cases b; cases b1; simp_all
+          refine ⟨Or.inl ⟨?_, rfl⟩, fun _ => ?_⟩
+          · simpa using e
+          · simpa using e
 end
 
 end
